@@ -163,6 +163,8 @@ class Program:
         self.impls = []
         self.traits = {}
         self.unsafe_blocks = []
+        self._autos_raw = []
+        self._autos = None
         self.crates = []
         seen_files = {}
         for f in sorted(os.listdir(facts_dir)):
@@ -187,6 +189,8 @@ class Program:
             for im in d["impls"]:
                 im["crate"] = cname
                 self.impls.append(im)
+            for a in d.get("autos", []):
+                self._autos_raw.append((cname, a))
             for u in d["unsafe_blocks"]:
                 u["crate"] = cname
                 self.unsafe_blocks.append(u)
@@ -259,7 +263,8 @@ class Program:
         elif k == "param":
             s = t["name"]
         elif k == "dyn":
-            s = "dyn " + "+".join(t["traits"]) + ga(t["pargs"][1:] if False else t["pargs"])
+            s = "dyn " + "+".join(t["traits"]) + ga(t["pargs"]) + "".join(
+                "+" + a.rsplit("::", 1)[1] for a in sorted(t.get("autos", [])))
         elif k == "fndef":
             s = "fn#" + t["id"] + ga(t["args"])
         elif k == "closure":
@@ -275,6 +280,15 @@ class Program:
 
     def ty(self, crate, idx):
         return self.types[crate][idx]
+
+    def autos(self):
+        """type string -> {send, sync, freeze} as decided by rustc's trait solver for closed types."""
+        if self._autos is None:
+            m = {}
+            for cname, a in self._autos_raw:
+                m[self.tstr(cname, a["ty"])] = a
+            self._autos = m
+        return self._autos
 
     def local_ty(self, fn, local):
         return self.tstr(fn.crate, fn.locals[local])
